@@ -50,7 +50,7 @@ EXES = {X + "/vim": (True, None), X + "/ed": (True, None), X + "/cat": (False, N
 
 def gen_attr_case(rng):
     s = wc.Script()
-    wc.setup_world(s, wc.base_cfg(deb=5))
+    cfg = wc.setup_world(s, wc.base_cfg(deb=5))
     s.put(X + "/ed", "#!ed")
     s.put(X + "/elf/nano", wc.elf_image(X + "/ld2.so"))
     s.put(X + "/ld2.so", "loader2")
@@ -72,7 +72,17 @@ def gen_attr_case(rng):
             s.exec(p, EXES[second][1])
         s.write(p, rng.choice(files))
     for _ in range(rng.randint(5, 40)):
-        if rng.random() < 0.55:
+        r = rng.random()
+        if r < 0.06:
+            # the configuration is rewritten with other sizing hints (and the same policy): who is an editor does
+            # not change by that
+            import copy
+            cfg = copy.deepcopy(cfg)
+            cfg.maxpid = rng.choice([1, 4, 64, 32768, 4194304])
+            cfg.elfguess = rng.choice([1, 2, 8])
+            s.config(cfg)
+            s.write(rng.choice(pids), wc.CFG_PATH)
+        elif r < 0.55:
             s.exec(rng.choice(pids), rng.choice(list(EXES)))
         else:
             s.write(rng.choice(pids), rng.choice(files))
